@@ -573,6 +573,53 @@ def arity_obligations(idx, rep, rules, rule_name="part-coverage"):
     return n
 
 
+def _mapping_of(idx, fi, e, self_name, depth=0):
+    """what a `**e` argument carries: {key: value expr} for a dict literal / dict(k=v) (also through a local name), "ALL-FIELDS" for
+    a mapping of every declared field of the receiver (self.__dict__, vars(self), {f.name: getattr(self, f.name) for f in fields(self)},
+    also when a method of the receiver's class returns it), None otherwise"""
+    if depth > 3:
+        return None
+    if isinstance(e, ast.Name):
+        v = df.resolve_value(fi.node, e)
+        return None if v is e or v is None else _mapping_of(idx, fi, v, self_name, depth + 1)
+    if isinstance(e, ast.Dict) and all(isinstance(k, ast.Constant) and isinstance(k.value, str) for k in e.keys):
+        return {k.value: v for k, v in zip(e.keys, e.values)}
+    if isinstance(e, ast.Attribute) and e.attr == "__dict__" and isinstance(e.value, ast.Name) and e.value.id == self_name:
+        return "ALL-FIELDS"
+    if isinstance(e, ast.DictComp) and len(e.generators) == 1 and self_name is not None:
+        g = e.generators[0]
+        it = g.iter
+        over_fields = isinstance(it, ast.Call) and (ast.unparse(it.func).split(".")[-1] == "fields") and it.args and isinstance(it.args[0], ast.Name) and it.args[0].id == self_name
+        if over_fields and isinstance(g.target, ast.Name) and not g.ifs:
+            t = g.target.id
+            key_ok = isinstance(e.key, ast.Attribute) and e.key.attr == "name" and isinstance(e.key.value, ast.Name) and e.key.value.id == t
+            v = e.value
+            val_ok = (isinstance(v, ast.Call) and isinstance(v.func, ast.Name) and v.func.id == "getattr" and len(v.args) == 2 and isinstance(v.args[0], ast.Name)
+                      and v.args[0].id == self_name and ast.unparse(v.args[1]) == f"{t}.name")
+            if key_ok and val_ok:
+                return "ALL-FIELDS"
+        return None
+    if isinstance(e, ast.Call):
+        f = e.func
+        if isinstance(f, ast.Name) and f.id == "dict" and not e.args and all(k.arg is not None for k in e.keywords):
+            return {k.arg: k.value for k in e.keywords}
+        if isinstance(f, ast.Name) and f.id in ("dict", "vars") and len(e.args) == 1 and not e.keywords:
+            a = e.args[0]
+            if f.id == "vars" and isinstance(a, ast.Name) and a.id == self_name:
+                return "ALL-FIELDS"
+            return _mapping_of(idx, fi, a, self_name, depth + 1)
+        if isinstance(f, ast.Attribute) and f.attr == "copy" and not e.args:
+            return _mapping_of(idx, fi, f.value, self_name, depth + 1)
+        if isinstance(f, ast.Attribute) and isinstance(f.value, ast.Name) and f.value.id == self_name and not e.args and not e.keywords and fi.cls is not None:
+            meth = idx.find_method(fi.cls, f.attr)
+            if meth is not None and meth.params:
+                rets = [r.value for r in df.returns(meth.node) if r.value is not None]
+                if len(rets) == 1:
+                    m_ = _mapping_of(idx, meth, rets[0], meth.params[0], depth + 1)
+                    return m_ if m_ == "ALL-FIELDS" else None  # explicit keys of another scope are not re-read here
+    return None
+
+
 def option_passthrough(idx, rep, fi, options, rule_name="option-passthrough", report=True):
     """A routine that takes a contract option (tolerance, iteration cap, probe distribution, key) and calls another library routine
     with a parameter of the same name must hand its own value on: positionally, by keyword, or wholesale (`**self.__dict__`).  A call
@@ -604,6 +651,14 @@ def option_passthrough(idx, rep, fi, options, rule_name="option-passthrough", re
         bound = df.bind_call(c, callee.params)
         if "*" in bound:
             continue
+        all_fields = False
+        for sx in list(bound.get("**", [])):
+            m_ = _mapping_of(idx, fi, sx, self_name)
+            if m_ == "ALL-FIELDS":
+                all_fields = True
+            elif isinstance(m_, dict):
+                for k_, v_ in m_.items():
+                    bound.setdefault(k_, v_)
         for o in sorted((own | fields) & set(cparams)):
             construct = f"{fi.short}->{callee.short}:{o}"
             loc = idx.loc(fi.module, c)
@@ -616,6 +671,8 @@ def option_passthrough(idx, rep, fi, options, rule_name="option-passthrough", re
                     out.append((True, construct, f"`{o}` is handed on as `{ast.unparse(e)[:40]}`", loc))
                 else:
                     out.append((None, construct, f"`{o}` of {callee.short} is bound to `{ast.unparse(e)[:40]}`, which does not read the caller's `{o}`", loc))
+            elif all_fields and o in fields:
+                out.append((True, construct, f"`{o}` arrives with every declared field of the algorithm object", loc))
             elif "**" in bound:
                 ok = None
                 for s in bound["**"]:
